@@ -1,6 +1,7 @@
 import UscxmlVerif.Spec.Legal
 import UscxmlVerif.Model.Fast
 import UscxmlVerif.Proofs.CfgInv
+import UscxmlVerif.Proofs.Root
 /-!
 # C02 — the active configuration is legal after every micro-step (the part that needs no assumption)
 
@@ -28,6 +29,14 @@ theorem configuration_is_a_set_of_real_states_partial (eng : Engine) (c : Chart)
 /-- one engine step keeps it, from any state that has it (not only from reachable ones) -/
 theorem step_keeps_set (eng : Engine) (c : Chart) (e : EState) (h : EOk c e) : EOk c (engineStep eng c e).1 :=
   engineStep_ok eng c e h
+
+/-- **partial** (clause 1 of `legal`, half of it): the root, once active, is never exited - by either engine, on any chart,
+whatever the transitions are (the exit interval of a transition starts after its domain) -/
+theorem root_is_never_exited_partial (eng : Engine) (c : Chart) (e : EState) (h : 0 ∈ e.config) :
+    0 ∈ (engineStep eng c e).1.config := by
+  cases eng
+  · exact Proofs.Root.large_step_root c e h
+  · exact Proofs.Root.fast_step_root c e h
 
 /-- the full statement is false of the code as it stands (recorded finding `hist-shared`): a configuration the engines
 reach on a chart with nested histories holds two children of a compound state. The witness is replayed on the compiled
